@@ -66,6 +66,8 @@ type Contract struct {
 	Opaque    bool
 	Atomic    bool
 	TimeoutS int
+	Paths    bool
+	Apply    []Clause // explicit lemma instances assumed at entry
 	Notes     []string
 	ParamName []string // optional override of parameter names (extern)
 	Uses      []string // lemmas (proved elsewhere) assumed while verifying this function
@@ -103,6 +105,7 @@ type Axiom struct {
 	Arith string
 	File  string
 	Line  int
+	Opaque []string // for lemma: spec functions kept uninterpreted in its proof
 	Uses  []string // for lemma: names of axioms allowed as hypotheses ("using a b"); empty = all axioms
 }
 
@@ -281,10 +284,15 @@ func (db *SpecDB) LoadFile(path, pkgPath string) error {
 					ax.Arith = "bv"
 				case "math":
 					ax.Arith = "math"
+				case "opaque":
+					for j+1 < len(head) && head[j+1] != "prop" && head[j+1] != "using" {
+						ax.Opaque = append(ax.Opaque, head[j+1])
+						j++
+					}
 				case "any":
 					ax.Arith = "any" // stated with operators that mean the same in both integer modes
 				case "using":
-					for j+1 < len(head) && head[j+1] != "prop" {
+					for j+1 < len(head) && head[j+1] != "prop" && head[j+1] != "opaque" {
 						ax.Uses = append(ax.Uses, head[j+1])
 						j++
 					}
@@ -433,6 +441,12 @@ func (db *SpecDB) LoadFile(path, pkgPath string) error {
 			cur.Atomic2 = append(cur.Atomic2, strings.Fields(rest)...)
 		case "note":
 			cur.Notes = append(cur.Notes, rest)
+		case "paths":
+			// verify every path through the (loop-free) body separately instead of merging at joins
+			cur.Paths = true
+		case "apply":
+			// "apply lemma(args...)": the proved lemma instantiated at function entry
+			cur.Apply = append(cur.Apply, Clause{Kind: word, Text: rest, File: path, Line: ln})
 		case "timeout":
 			// minimum solver budget (seconds) for the obligations of this function
 			fmt.Sscanf(rest, "%d", &cur.TimeoutS)
